@@ -218,6 +218,39 @@ type Shift struct {
 	N int32
 }
 
+// Digest: a NAMED byte-slice type (written as a list, not as binary, by the pinned encoder)
+type Digest []uint8
+
+// DigestHolder: named byte slices in front of a shared pointer
+type DigestHolder struct {
+	D Digest
+	N int32
+	P *Inner
+	Q *Inner
+	E Digest
+}
+
+// Stamped: a struct that EMBEDS time.Time and has further fields
+type Stamped struct {
+	time.Time
+	Note string
+	N    int32
+}
+
+type StampedHolder struct {
+	S Stamped
+	P *Stamped
+	L []Stamped
+}
+
+// PtrMap: the same map reachable through a pointer-to-map field and a plain map field
+type PtrMap struct {
+	PM *map[string]int32
+	M  map[string]int32
+	M2 map[string]int32
+	X  *Inner
+}
+
 // GF: graph node with two pointer slots and one filler field of every kind in front of them (C04)
 type GF struct {
 	Id  int32
@@ -340,6 +373,7 @@ var Types = []Entry{
 	e(Inner{}), e(Inner2{}), e(WithInner{}, "nested", "ptr"),
 	e(Embedded{}, "embedded"), e(Embedded2{}, "embedded"),
 	e(NamedS{}, "custom"), e(NamedHolder{}, "custom"), e(NamedListHolder{}, "custom", "custom-slice"), e(NamedMapHolder{}, "custom", "custom-map"), e(MapThenLists{}, "custom", "custom-map", "slice"), e(PadThen{}, "scalars"),
+	e(DigestHolder{}, "slice", "named-bytes"), e(StampedHolder{}, "embedded", "embedded-time"), e(PtrMap{}, "map", "ptr-map"),
 	e(SlBool{}, "slice"), e(SlInt{}, "slice"), e(SlInt8{}, "slice"), e(SlInt16{}, "slice"), e(SlInt32{}, "slice"), e(SlInt64{}, "slice"),
 	e(SlUint{}, "slice"), e(SlUint16{}, "slice"), e(SlUint32{}, "slice"), e(SlUint64{}, "slice"),
 	e(SlF32{}, "slice"), e(SlF64{}, "slice"), e(SlStr{}, "slice"), e(SlBin{}, "slice"), e(SlTime{}, "slice"),
